@@ -19,7 +19,7 @@ import (
 type Frame struct {
 	Type      string // DATA HEADERS CONTINUATION SETTINGS PING GOAWAY RST_STREAM WINDOW_UPDATE PRIORITY PUSH_PROMISE UNKNOWN
 	Stream    uint32
-	Len       int  // payload length on the wire (for HEADERS/CONTINUATION: fragment length)
+	Len       int // payload length on the wire (for HEADERS/CONTINUATION: fragment length)
 	EndStream bool
 	EndHdrs   bool
 	Ack       bool
@@ -70,15 +70,15 @@ type Peer struct {
 	encBuf bytes.Buffer
 	wmu    sync.Mutex
 
-	mu        sync.Mutex
-	log       []Frame
-	ReadErr   error // terminal error of the reader (io.EOF on close)
-	readDone  chan struct{}
-	hdec      *hpack.Decoder
-	hfields   [][2]string
+	mu              sync.Mutex
+	log             []Frame
+	ReadErr         error // terminal error of the reader (io.EOF on close)
+	readDone        chan struct{}
+	hdec            *hpack.Decoder
+	hfields         [][2]string
 	AutoAckSettings bool
 	AutoAckPing     bool
-	gotPreface bool
+	gotPreface      bool
 }
 
 // NewServerPeer wraps the server end of a connection to a real gRPC client:
